@@ -9,9 +9,10 @@ ID = 'C18'
 LEAN_TARGETS = ['Props.C18']
 OBLIGATIONS = [
     'C18.blademap_additive', 'C18.blademap_homogeneous', 'C18.blademap_listed', 'C18.blademap_twice', 'C18.mvarray_fold',
-    'C18.innermorphic_symmetric',
+    'C18.innermorphic_symmetric', 'C18.frame_volume_element', 'C18.reciprocal_frame', 'C18.inner_scalar_is_contraction_scalar',
 ]
-PARTIAL = ['reciprocal frame a_i | a^j = delta_ij: no Lean theorem (needs the contraction calculus); decided by evaluation on the implementation with integer frames',
+PARTIAL = ['reciprocal frame: proved as a_i _| a^j = delta_ij with the coded left-contraction table (and the scalar component of the coded `|` equals that of `_|`); '
+           'that E has an inverse (non-null volume element) is a hypothesis, as the property requires',
            'element-wise lifts of MVArray are numpy object-array broadcasting: modelled as map/zipWith (definitional) and evaluated on the implementation']
 RULE = ("array shapes up to 3-D with integer multivector elements, every operand-kind pair (array/array, array/single either side, numeric array/multivector either side); "
         "frames of 2..n integer vectors with non-null volume element in non-degenerate signatures n<=5; blade maps: sta.bm and random signed pairings between two algebras. "
